@@ -33,6 +33,13 @@ EvSub(ev) ==
     /\ obs' = (/\ ev.res = (IF last' = "ok" THEN "ok" ELSE "error")
                /\ Clean(ev) /\ Seen(ev) = Visible(hook', up'))
 
+\* the very bytes of an earlier accepted request, sent again
+EvReplay(ev) ==
+    IF <<ev.w, ev.u>> \in auth
+    THEN /\ Replay(ev.w, ev.u)
+         /\ obs' = (ev.res = "ok" /\ Clean(ev) /\ Seen(ev) = Visible(hook', up'))
+    ELSE UNCHANGED <<hook, up, inbox, auth, last>> /\ obs' = FALSE
+
 EvRemove(ev) ==
     /\ Remove(ev.w)
     /\ obs' = (Clean(ev) /\ Seen(ev) = Visible(hook', up'))
@@ -56,6 +63,7 @@ TNext ==
        CASE ev.a = "Reset" -> EvReset(ev)
          [] ev.a = "Sub" -> EvSub(ev)
          [] ev.a = "Remove" -> EvRemove(ev)
+         [] ev.a = "Replay" -> EvReplay(ev)
          [] ev.a = "Notify" -> EvNotify(ev)
          [] ev.a \in {"Down", "Up"} -> EvUpDown(ev)
 
